@@ -11,7 +11,8 @@ OBLIGATIONS = ['Yalafi.C05_scanSpace_kind', 'Yalafi.C05_removeLines_noaction_id'
                'Yalafi.C05_mix2_lines', 'Yalafi.C05_mix2_last_line', 'Yalafi.C05_mix2_nothing_added', 'Yalafi.C05_mix2_kept',
                'Yalafi.C05_paragraph_relation', 'Yalafi.C05_same_paragraph', 'Yalafi.C05_paragraph_relation_current', 'Yalafi.C05_para_example_current', 'Yalafi.C05_para_example_ref', 'Yalafi.C05_para_example_eval', 'Yalafi.C05_par_e2e', 'Yalafi.C05_par_break', 'Yalafi.C05_par_origin', 'Yalafi.C05_par_e2e_current', 'Yalafi.C05_par_break_current', 'Yalafi.C05_par_example_current', 'Yalafi.C05_par_example_ref', 'Yalafi.C05_par_example_eval', 'Yalafi.C05_par_quote_eval',
                'Yalafi.C05_mix3_nothing_added', 'Yalafi.C05_mix3_lines', 'Yalafi.C05_mix3_last_line', 'Yalafi.C05_mix3_kept',
-               'Yalafi.C05_paragraph_relation_mix3', 'Yalafi.C05_paragraph_iff_mix3', 'Yalafi.C05_same_paragraph_mix3', 'Yalafi.C05_paragraph_relation_mix3_current', 'Yalafi.C05_same_paragraph_mix3_current', 'Yalafi.C05_para3_example_current', 'Yalafi.C05_para3_example_ref', 'Yalafi.C05_para3_example_eval', 'Yalafi.C05_para3_exception']
+               'Yalafi.C05_paragraph_relation_mix3', 'Yalafi.C05_paragraph_iff_mix3', 'Yalafi.C05_same_paragraph_mix3', 'Yalafi.C05_paragraph_relation_mix3_current', 'Yalafi.C05_same_paragraph_mix3_current', 'Yalafi.C05_para3_example_current', 'Yalafi.C05_para3_example_ref', 'Yalafi.C05_para3_example_eval', 'Yalafi.C05_para3_exception',
+               "Yalafi.C05_mix4_nothing_added", "Yalafi.C05_mix4_lines", "Yalafi.C05_mix4_last_line", "Yalafi.C05_mix4_kept"]
 
 # separator atoms: (text, class).  class: 'ws' white space that counts, 'par' paragraph break,
 # 'cw' control word (eats following blanks, as in TeX), 'none' vanishing construct, 'cmt' comment
